@@ -50,6 +50,9 @@ CLAIMED["C14"] = ("differential testing of the implementation against itself acr
 CLAIMED["C13"] = ("stateful property testing of drop-order histories over an object graph (frozen modules, load chains, owned handles, modules built from handles, temporary Globals), invariant checked after every step, freed arenas poisoned (hook H2), drops also on other threads",
     "Exploration: after every step every value still reachable from a live root must encode exactly as at creation (values read through add_to_heap and by_ref, functions called); a premature release reads 0x5A poison and crashes the isolated worker or changes the encoding.",
     "Relies on hook H2; only library-owned reference operations are generated (documented caller obligations are excluded).", "DESIGN.md §5 C13")
+CLAIMED["C06"] = ("differential testing of the parse tree against CPython's ast on the shared grammar (grammar-directed generation without redundant parentheses, exhaustive operator-pair table, token mutations for acceptance) and a print/parse round-trip with fixed-point check on generated, corpus and mutated modules",
+    "Exploration with an exhaustively enumerated operator-pair table: identical S-expressions from the Starlark AST and CPython's ast; acceptance agreement inside the shared grammar; print(parse(x)) re-parses to an equal tree and is a fixed point.",
+    "Trusts CPython's grammar for the shared subset and the harness's two S-expression printers; the outside-shared list is explicit in c06.rs.", "DESIGN.md §5 C06")
 NOT_YET = {}
 
 def main():
